@@ -23,7 +23,7 @@ pub fn tol_adj(kind: GridKind) -> f64 {
     match kind {
         GridKind::Cartesian => 1e-12,
         GridKind::Spherical => 5e-3,
-        GridKind::Polar => 5e-2,
+        GridKind::Polar => 0.5,
     }
 }
 pub fn tol_fd(kind: GridKind) -> f64 {
@@ -94,13 +94,20 @@ fn one_case<F: HelmholtzEnergyFunctional + 'static>(c: &FCfg, f: &Arc<F>, case: 
     let n = z.len();
     let wf = f.weight_functions(c.t);
     let conv: Conv = ConvolverFFT::plan(&grid, &wf, None);
-    let spec = funcs::sample_profile(rng, case.osc, case.length, c.sigma);
+    let mut spec = funcs::sample_profile(rng, case.osc, case.length, c.sigma);
+    if std::env::var("C17_DILUTE").is_ok() && !case.osc && rng.f64() < 0.3 {
+        // (off by default) interface against near-vacuum: the functionals have cut-offs / |.| kinks there (N0_CUTOFF, |lambda|),
+        // i.e. points where they are not differentiable, so finite differences are not an oracle; part 1 covers those branches
+        spec.eta_lo = rng.log_range(1e-9, 1e-7);
+    }
     let rho = funcs::density_profile(f.as_ref(), c, &spec, &z);
     let ci = f.component_index().into_owned();
     let nseg = ci.len();
     let bspec = funcs::sample_bump(rng, nseg, case.length);
-    let scale: Vec<f64> = (0..nseg).map(|s| 0.2 * spec.eta_hi * c.rho_per_eta * c.x[ci[s]]).collect();
-    let delta = funcs::bump(&bspec, &scale, &z);
+    // multiplicative perturbation  delta_s(z) = a_s b(z) rho_s(z):  smooth, compactly supported away from the boundary, and
+    // rho +- eps delta stays positive for every eps < 1 (also against near-vacuum)
+    let ones: Vec<f64> = vec![1.0; nseg];
+    let delta = funcs::bump(&bspec, &ones, &z) * &rho;
     let support: Vec<usize> = (0..n).filter(|k| delta.column(*k).iter().any(|x| *x != 0.0)).collect();
     let mut checks: Vec<Value> = Vec::new();
     let mut failures: Vec<Value> = Vec::new();
